@@ -7,8 +7,8 @@ import (
 
 	"verifharness/fw"
 	"verifharness/gen"
-	"verifharness/mon"
 	"verifharness/model"
+	"verifharness/mon"
 )
 
 // C09 — template inheritance resolves every block to its most-derived override.
@@ -419,5 +419,5 @@ func (p *c09) Assumptions() []string {
 }
 
 func (p *c09) Floors(tier string) map[string]int64 {
-	return map[string]int64{"callbacks_observed": 10000, "distinct_nontrivial": 500}
+	return map[string]int64{"callbacks_observed": 10000, "distinct_nontrivial": 500, "class:alias-chain": 100, "class:long-chain": 2}
 }
